@@ -166,6 +166,8 @@ class StmtMixin:
                         prev.append(cnd)
                     self.oblige(s1, z3.Or(ok + [z3.BoolVal(False)]), "function-attribute-%s-matches-declared-dispatch" % tgt.attr, tgt)
                     yield s1; continue
+                if sch.fields.get(tgt.attr) == "ignored":
+                    yield s1; continue          # attribute never read by verified code (declared as such in the schema)
                 if tgt.attr in sch.fields:
                     self.hwrite(s1, base.ty.family, tgt.attr, base.t, self.coerce(val, sch.fields[tgt.attr], s1, tgt).t)
                     yield s1; continue
@@ -269,28 +271,51 @@ class StmtMixin:
                     if old is None or old.ty != sv.ty or not _same(old.t, sv.t): mod_env[k] = sv.ty
                 for k, arr in s2.heap.items():
                     if not self.harr(st, *k).eq(arr):
-                        mod_heap.add(k); self._note_writes(k, arr, self.harr(st, *k), mark)
+                        mod_heap.add(k); self._note_writes(k, arr, self.harr(st, *k), mark, st.alloc, s2)
                 if not s2.alloc.eq(st.alloc): alloc_changed = True
             for s2, e in sink:
                 for k, arr in s2.heap.items():
                     if not self.harr(st, *k).eq(arr):
-                        mod_heap.add(k); self._note_writes(k, arr, self.harr(st, *k), mark)
+                        mod_heap.add(k); self._note_writes(k, arr, self.harr(st, *k), mark, st.alloc, s2)
         finally:
             self.quiet -= 1
         return mod_env, {k: self._written_refs.get(k) for k in mod_heap}, alloc_changed
 
-    def _note_writes(self, k, arr, base, mark):
+    def _note_writes(self, k, arr, base, mark, alloc0=None, outcome=None):
         """arr = Store(...Store(base, r1, v1)..., rn, vn) with loop-invariant references r_i: remember {r_i}; otherwise None (= anything)"""
         refs = []
+        inherited_fresh = False
         cur = arr
-        while not cur.eq(base) and z3.is_app(cur) and cur.decl().kind() == z3.Z3_OP_STORE:
-            refs.append(cur.arg(1)); cur = cur.arg(0)
+        while not cur.eq(base):
+            if z3.is_app(cur) and cur.decl().kind() == z3.Z3_OP_STORE:
+                refs.append(cur.arg(1)); cur = cur.arg(0)
+            elif cur.get_id() in self.frame_parent:       # result of a modular call that changes the field only at known references
+                parent, rs = self.frame_parent[cur.get_id()]
+                for x in rs:
+                    if isinstance(x, str): inherited_fresh = True
+                    else: refs.append(x)
+                cur = parent
+            else: break
+        # writes to objects allocated inside the loop body (reference = allocation counter at loop entry + constant): in later
+        # iterations they hit other fresh objects; what is preserved is every object that existed before the loop
+        fresh_write = inherited_fresh
+        if alloc0 is not None:
+            keep = []
+            for r in refs:
+                d = z3.simplify(r - alloc0)
+                if z3.is_int_value(d) and d.as_long() >= 0: fresh_write = True
+                elif outcome is not None and new_consts([r], mark) and not self.maybe(outcome, r < alloc0): fresh_write = True
+                else: keep.append(r)
+            refs = keep
         ok = cur.eq(base) and not new_consts(refs, mark)
+        if fresh_write: refs = refs + ["fresh"]
         prev = self._written_refs.get(k, [])
         if not ok or prev is None: self._written_refs[k] = None
         else:
             for r in refs:
-                if not any(r.eq(p) for p in prev): prev.append(r)
+                if isinstance(r, str):
+                    if r not in prev: prev.append(r)
+                elif not any((not isinstance(p, str)) and r.eq(p) for p in prev): prev.append(r)
             self._written_refs[k] = prev
 
     def havoc(self, st, mod_env, mod_heap, alloc_changed):
@@ -308,7 +333,10 @@ class StmtMixin:
             if refs is not None:
                 # the body writes this field only at loop-invariant references: every other object keeps its value
                 r = z3.Int("r!hv")
-                st.assume(z3.ForAll([r], z3.Implies(z3.And([r != x for x in refs]), z3.Select(new, r) == z3.Select(arr, r))))
+                conds = [r != x for x in refs if not isinstance(x, str)]
+                if "fresh" in refs: conds.append(r < st.alloc)      # st.alloc: allocation counter at loop entry (havocked below)
+                st.assume(z3.ForAll([r], z3.Implies(z3.And(conds + [z3.BoolVal(True)]), z3.Select(new, r) == z3.Select(arr, r))))
+                self.frame_parent[new.get_id()] = (arr, list(refs))
             st.heap[k] = new
         if alloc_changed:
             na = fresh("alloc", T.Int); st.assume(na >= st.alloc); st.alloc = na
@@ -317,13 +345,18 @@ class StmtMixin:
         invs = spec.get("invariant", [])
         s = st.fork(); s.env = dict(st.env); s.env.update(extra_env)
         for inv in invs:
+            base = len(s.pc)
             g = self.spec_eval(inv, s, None)
+            for f in s.pc[base:]: st.assume(f)       # background facts (well-formedness of values read) instantiated by the evaluation
             self.oblige(st, g, "loop-invariant-%s:L%s:%s" % (when, spec.get("_ord"), inv[:70]), node)
 
     def assume_invs(self, st, spec, extra_env):
         s = st.fork(); s.env = dict(st.env); s.env.update(extra_env)
         for inv in spec.get("invariant", []):
-            st.assume(self.spec_eval(inv, s, None))
+            base = len(s.pc)
+            g = self.spec_eval(inv, s, None)
+            for f in s.pc[base:]: st.assume(f)
+            st.assume(g)
 
     def st_While(self, node, st):
         if node.orelse: raise VCError("while/else")
